@@ -15,6 +15,10 @@ TERMS = {
     "return": "return 1", "raise": "raise ValueError(1)", "break": "break", "continue": "continue",
     "ifelse": "if a:\n{I}    return 1\n{I}else:\n{I}    raise ValueError(2)",
     "ifelifelse": "if a:\n{I}    return 1\n{I}elif b:\n{I}    return 2\n{I}elif c:\n{I}    raise KeyError(3)\n{I}else:\n{I}    return 4",
+    # comment lines at CLAUSE indentation between the clauses (they are children of the if statement in the concrete syntax tree), blank lines, a
+    # trailing comment on a clause line and a comment-only line inside a body
+    "ifelifelse_comments": "if a:  # first\n{I}    return 1\n{I}# between if and elif\n{I}elif b:\n{I}    # inside\n{I}    return 2\n\n{I}# between two elifs\n{I}elif c:\n{I}    raise KeyError(3)\n{I}# before else\n{I}else:\n{I}    return 4",
+    "ifelse_comment": "if a:\n{I}    return 1\n{I}# before else\n{I}else:\n{I}    raise ValueError(2)",
 }
 # enclosing construct: (template with {T} = terminator line(s) and {M} = marker statement, both at indent {I}), needs_loop
 ENCL = {
